@@ -192,6 +192,7 @@ typedef struct
   int nplan; int plan_k[32]; int plan_r[32];
   int cb_count;
   int log_matches;      /* log per-string match lists in rule messages */
+  int walk_modules;     /* on MODULE_IMPORTED walk the whole object tree (reads every field of the module) */
   int quiet_nomatch;    /* do not log not-matching messages (bulk functional cases) */
   int sid;
 } CBCTX;
@@ -268,6 +269,7 @@ static int scan_cb(YR_SCAN_CONTEXT* ctx, int message, void* data, void* ud)
   else if (message == CALLBACK_MSG_MODULE_IMPORTED)
   {
     YR_OBJECT* o = (YR_OBJECT*) data;
+    if (c->walk_modules) { yr_object_print_data(o, 0, 1); }
     fputs(",\"mod\":", out);
     jcstr(o->identifier);
   }
@@ -590,7 +592,7 @@ int main(int argc, char** argv)
   signal(SIGABRT, on_fatal);
 
   size_t cap = 64u << 20; char* line = (char*) malloc(cap); ssize_t len;
-  int default_log_matches = 1, default_quiet = 0, iter_log = 1;
+  int default_log_matches = 1, default_quiet = 0, iter_log = 1, walk_modules = 0, flush_scan = 0;
 
   while ((len = getline(&line, &cap, in)) > 0)
   {
@@ -614,6 +616,8 @@ int main(int argc, char** argv)
       if (!strcmp(tok[1], "logmatches")) default_log_matches = atoi(tok[2]);
       else if (!strcmp(tok[1], "quietnomatch")) default_quiet = atoi(tok[2]);
       else if (!strcmp(tok[1], "iterlog")) iter_log = atoi(tok[2]);
+      else if (!strcmp(tok[1], "flushscan")) flush_scan = atoi(tok[2]);
+      else if (!strcmp(tok[1], "walkmodules")) { walk_modules = atoi(tok[2]); if (walk_modules && !freopen("/dev/null", "w", stdout)) {} }
       else if (!strcmp(tok[1], "hang")) hang_seconds = atoi(tok[2]);
       else if (!strcmp(tok[1], "failat")) { yv_fail_at = atol(tok[2]); yv_alloc_count = 0; yv_faults_injected = 0; yv_fault_enabled = 1; }
       else if (!strcmp(tok[1], "failsticky")) yv_fail_sticky = atoi(tok[2]);
@@ -666,6 +670,27 @@ int main(int argc, char** argv)
       for (int i = 2; i < nt; i++) { BLOB* b = &datas[slot(tok[i], MAXDATA)]; if (b->n) memcpy(p + o, b->p, b->n); o += b->n; }
       free(datas[d].p);
       datas[d].p = p; datas[d].n = n;
+    }
+    else if (!strcmp(op, "mutate"))
+    {
+      /* mutate <src> <dst> <off> <width> <value> <be 0|1> : copy src, overwrite width bytes at off */
+      NEED(6);
+      int a = slot(tok[1], MAXDATA), d = slot(tok[2], MAXDATA);
+      size_t off = strtoull(tok[3], 0, 10); int width = atoi(tok[4]); unsigned long long val = strtoull(tok[5], 0, 10); int be = atoi(tok[6]);
+      uint8_t* p = (uint8_t*) malloc(datas[a].n + 1);
+      if (datas[a].n) memcpy(p, datas[a].p, datas[a].n);
+      for (int i = 0; i < width && off + i < datas[a].n; i++) p[off + i] = (uint8_t) (val >> (8 * (be ? width - 1 - i : i)));
+      free(datas[d].p); datas[d].p = p; datas[d].n = datas[a].n;
+    }
+    else if (!strcmp(op, "truncate"))
+    {
+      NEED(3);
+      int a = slot(tok[1], MAXDATA), d = slot(tok[2], MAXDATA);
+      size_t n = strtoull(tok[3], 0, 10);
+      if (n > datas[a].n) n = datas[a].n;
+      uint8_t* p = (uint8_t*) malloc(n + 1);
+      if (n) memcpy(p, datas[a].p, n);
+      free(datas[d].p); datas[d].p = p; datas[d].n = n;
     }
     else if (!strcmp(op, "datafile"))
     {
@@ -949,11 +974,12 @@ int main(int argc, char** argv)
         continue;
       }
       CBCTX cb; memset(&cb, 0, sizeof cb);
-      cb.sid = s; cb.log_matches = default_log_matches; cb.quiet_nomatch = default_quiet;
+      cb.sid = s; cb.log_matches = default_log_matches; cb.quiet_nomatch = default_quiet; cb.walk_modules = walk_modules;
       parse_plan(tok[6], &cb);
       yr_scanner_set_callback(sc, scan_cb, &cb);
       fprintf(out, "{\"e\":\"ScanCall\",\"sid\":%d,\"did\":%d,\"len\":%zu,\"mode\":\"%s\",\"blocks\":\"%s\",\"nr\":\"%s\",\"plan\":\"%s\",\"flags\":%d,\"tag\":\"%s\"}\n",
               s, d, datas[d].n, mode, tok[4], tok[5], tok[6], sc->flags, tag);
+      if (flush_scan) fflush(out);
       int r = -1, calls = 0;
       struct timespec t0, t1;
       clock_gettime(CLOCK_MONOTONIC, &t0);
